@@ -21,6 +21,8 @@ package bpf
 //   bpf/vm_instructions.go 'return regA >> value' -> 'return regA >> (value & 31)'             VerifC49_alu (verdict)
 //   bpf/vm.go 'if check <= int(ins.SkipFalse) {' (JumpIf) -> 'if check < int(ins.SkipFalse) {'  VerifC49_jump (NewVM accepts a
 //             jump to one past the end: Run falls off the program, reference reports "no ret reached")
+//   bpf/vm.go Run 'i += int(ins.Skip)' -> 'i += int(uint8(ins.Skip))' (seed C49-D)              VerifC49_longjump (quick)
+//   bpf/vm.go Run 'i += int(ins.Skip)' -> 'i += int(uint16(ins.Skip))'                         VerifC49_longjump (thorough)
 // Native reproduction of the known finding: repro/C49 (sh repro/run.sh C49 bpf).
 
 func init() {
@@ -30,6 +32,7 @@ func init() {
 	vfRegister("VerifC49_jump", VerifC49_jump)
 	vfRegister("VerifC49_load", VerifC49_load)
 	vfRegister("VerifC49_scratch", VerifC49_scratch)
+	vfRegister("VerifC49_longjump", VerifC49_longjump)
 }
 
 var c49alu = [10]ALUOp{ALUOpAdd, ALUOpSub, ALUOpMul, ALUOpDiv, ALUOpOr, ALUOpAnd, ALUOpShiftLeft, ALUOpShiftRight, ALUOpMod, ALUOpXor}
@@ -478,6 +481,53 @@ func VerifC49_scratch() {
 		vfReach("accepted")
 	} else {
 		vfReach("rejected: slot outside 0..15")
+	}
+	vfReach("end")
+}
+
+func c49condLong(full bool, quick JumpTest) JumpTest {
+	if full {
+		return JumpTest(vfChoice("cond", 8))
+	}
+	return quick
+}
+
+// VerifC49_longjump: jump distances beyond what the short programs above can hold ("every jump offset" of the
+// quantifier). NewVM only accepts a skip that stays inside the program, so the programs of <= 6 instructions never run a
+// jump further than 3; here the jump is followed by F distinct landing sites (RetConstant{1..F}), F = 272 in quick
+// (every Jump.Skip 0..271, i.e. across the 8-bit boundary of the 32-bit field, and every 8-bit SkipTrue/SkipFalse
+// 0..255 of the conditional forms) and F = 65536+16 in thorough for the unconditional jump (Skip restricted to the
+// windows around 0, 2^8 and 2^16 and the last landing sites; the conditional forms keep F = 272 with all 8 tests;
+// quick runs one test per conditional form: every test is covered from arbitrary registers by VerifC49_jump).
+// A, X, K and the skip counts are symbolic; the verdict identifies the landing site.
+func VerifC49_longjump() {
+	full := vfTier() > 0
+	a, x := vfU32("a"), vfU32("x")
+	F := 272
+	var j Instruction
+	switch vfChoice("form", 3) {
+	case 0:
+		j = JumpIf{Cond: c49condLong(full, JumpGreaterThan), Val: vfU32("k"), SkipTrue: vfU8("st"), SkipFalse: vfU8("sf")}
+	case 1:
+		j = JumpIfX{Cond: c49condLong(full, JumpBitsNotSet), SkipTrue: vfU8("st"), SkipFalse: vfU8("sf")}
+	default:
+		skip := vfU32("skip")
+		if full {
+			F = 65536 + 16
+			vfAssume(vfOr(vfOr(skip < 3, vfAnd(skip >= 254, skip < 259)),
+				vfOr(vfAnd(skip >= 65534, skip < 65539), skip >= uint32(F)-2)))
+		}
+		j = Jump{Skip: skip}
+	}
+	prog := make([]Instruction, 0, F+3)
+	prog = append(prog, LoadConstant{Dst: RegA, Val: a}, LoadConstant{Dst: RegX, Val: x}, j)
+	for i := 0; i < F; i++ {
+		prog = append(prog, RetConstant{Val: uint32(i + 1)})
+	}
+	if c49check(prog, nil) {
+		vfReach("accepted")
+	} else {
+		vfReach("rejected: skip past the end")
 	}
 	vfReach("end")
 }
